@@ -200,7 +200,7 @@ theorem povm_mprocess_identity_sum [NeZero n] (sd : K) (vecs : List (Vec K n)) (
       simp [lsum]
   rw [this, lsum_map_mul_left, hM j]; split <;> simp
 
-/-! ### instruments: the correct sequential composition and its associativity -/
+/-! ### instruments: sequential composition and its associativity -/
 
 /-- unnormalised action of an instrument on a list of (weighted) states, earlier outcome slow:
 `for w in ws: for hs in hss: hs w`. This is what `MProcess∘StateEnsemble` computes before normalisation. -/
@@ -209,7 +209,8 @@ def applyInst (hss : List (Mat K n n)) (ws : List (Vec K n)) : List (Vec K n) :=
 
 /-- C06 "any two bracketings give the same statistics with the same labelling", instrument level:
 applying `M₂` to the outcome branches of `M₁` equals applying the sequential composition
-`mpMp hss₁ hss₂` (elem1 after elem2, HS product `hs1 @ hs2`, layout (elem2 outcome, elem1 outcome))
+`mpMp hss₁ hss₂` = `_compose_qoperations_MProcess_MProcess` (elem1 after elem2, HS product `hs1 @ hs2`, layout
+(elem2 outcome, elem1 outcome))
 — for all outcome counts and dimensions. -/
 theorem applyInst_comp (h1 h2 : List (Mat K n n)) (ws : List (Vec K n)) :
     applyInst h1 (applyInst h2 ws) = applyInst (mpMp h1 h2) ws := by
@@ -220,7 +221,7 @@ theorem applyInst_comp (h1 h2 : List (Mat K n n)) (ws : List (Vec K n)) :
   congr 1; funext hs1
   simp [mulVec_mulVec]
 
-/-- the corrected `MProcess∘MProcess` is associative as a list (i.e. including the outcome layout). -/
+/-- `MProcess∘MProcess` is associative as a list (i.e. including the outcome layout). -/
 theorem mpMp_assoc (a b c : List (Mat K n n)) :
     mpMp (mpMp a b) c = mpMp a (mpMp b c) := by
   simp only [mpMp, List.flatMap_assoc, List.map_flatMap, List.flatMap_map, List.map_map]
@@ -230,7 +231,7 @@ theorem mpMp_assoc (a b c : List (Mat K n n)) :
   congr 1; funext x
   simp [mul_assoc']
 
-/-- layout of the corrected composition: index `i₂·|M₁| + i₁` holds `HS¹_{i₁} HS²_{i₂}`, i.e. row-major in
+/-- layout of `MProcess∘MProcess`: index `i₂·|M₁| + i₁` holds `HS¹_{i₁} HS²_{i₂}`, i.e. row-major in
 (elem2 outcome, elem1 outcome) = (earlier, later), matching the shape `shape2 ++ shape1`. -/
 theorem mpMp_layout (h1 h2 : List (Mat K n n)) (i1 i2 : Nat) (a b : Mat K n n)
     (ha : h1[i1]? = some a) (hb : h2[i2]? = some b) :
@@ -288,8 +289,8 @@ variable {n : Nat} [NeZero n]
 /-- C06 "a measurement process on a state gives each outcome's probability together with the normalised
 post-measurement state" (`_compose_qoperations_MProcess_State_for_States`), generic regime = no outcome is
 truncated (`weight·p_x > eps_zero ≥ 0` for all x): probabilities are `weight·sd·(HS_x ρ)₀` and post states are
-`HS_x ρ / p_x`. Partial: when some outcome *is* truncated the code renormalises the surviving probabilities
-and divides the post states by the renormalised value (see `truncated_post_state_fails`). -/
+`HS_x ρ / p_x`. Partial: when some outcome *is* truncated the surviving probabilities are renormalised (the post
+states stay normalised, `post_states_normalised`). -/
 theorem mprocess_state_partial (sd eps : Rat) (hss : List (Mat Rat n n)) (rho : Vec Rat n) (w : Rat)
     (heps : 0 ≤ eps) (hno : ∀ hs ∈ hss, ¬ w * (sd * (hs.mulVec rho).get 0) ≤ eps) :
     forStates sd eps hss rho w =
@@ -419,7 +420,7 @@ inductive ITree (K : Type) (n : Nat)
   | leaf (hss : List (Mat K n n))
   | node (l r : ITree K n)
 
-/-- evaluation with the corrected sequential composition (`l` after `r`) -/
+/-- evaluation with `MProcess∘MProcess` (`l` after `r`) -/
 def ITree.eval : ITree K n → List (Mat K n n)
   | .leaf h => h
   | .node l r => mpMp l.eval r.eval
@@ -453,7 +454,7 @@ theorem foldInst_append (a b : List (List (Mat K n n))) :
   | cons h t ih => simp only [List.cons_append, foldInst, ih, mpMp_assoc]
 
 /-- C06 "any two ways of bracketing the same time-ordered chain give the same outcome statistics with the same
-outcome labelling", for the corrected `MProcess∘MProcess`: every bracketing of a chain of instruments (any length,
+outcome labelling", instrument level: every bracketing of a chain of instruments (any length,
 any outcome counts) evaluates to the same *list* of outcome maps — same maps, same layout — namely the
 right-nested composition of the leaves. -/
 theorem instrument_bracketing (t : ITree K n) : t.eval = foldInst t.leaves ∧
@@ -465,9 +466,10 @@ theorem instrument_bracketing (t : ITree K n) : t.eval = foldInst t.leaves ∧
     | node l r ihl ihr => simp only [ITree.eval, ITree.leaves, foldInst_append, ihl, ihr]
   exact ⟨key t, fun t' h => by rw [key t', key t, h]⟩
 
-/-- the branches `Gate∘Gate`, `Gate∘MProcess`, `MProcess∘Gate` of the coded dispatch are instances of the corrected
-sequential composition (a gate is the one-outcome instrument) — only `MProcess∘MProcess` deviates. -/
-theorem coded_branches_eq_fixed (a b : Mat K n n) (hss : List (Mat K n n)) :
+/-- the branches `Gate∘Gate`, `Gate∘MProcess`, `MProcess∘Gate` of the dispatch are instances of `MProcess∘MProcess`
+(a gate is the one-outcome instrument), so `instrument_bracketing` covers every chain of gates and measurement
+processes. -/
+theorem gate_branches_are_instruments (a b : Mat K n n) (hss : List (Mat K n n)) :
     [a.mul b] = mpMp [a] [b] ∧
     (hss.map fun hs => a.mul hs) = mpMp [a] hss ∧
     (hss.map fun hs => hs.mul b) = mpMp hss [b] := by
@@ -505,7 +507,7 @@ theorem mulVec_smul (A : Mat Rat n n) (w : Rat) (v : Vec Rat n) :
 /-- C06 "(earlier, later) labelling of `MProcess∘StateEnsemble`", generic regime (no outcome truncated): the
 unnormalised states `p·ρ` of the new ensemble are, block by block, the outcome maps applied to the unnormalised
 states of the old ensemble — old outcome slow, new outcome fast — i.e. `applyInst`. With `applyInst_comp` this
-gives `M₂∘(M₁∘E) = (M₂ ∘fixed M₁)∘E` for all outcome counts. Partial: truncated outcomes are excluded. -/
+gives `M₂∘(M₁∘E) = (M₂∘M₁)∘E` for all outcome counts (`compose_assoc_mprocess_partial`). Partial: truncated outcomes are excluded. -/
 theorem ensemble_step_partial (sd eps : Rat) (hss : List (Mat Rat n n)) (sp : List (Vec Rat n × Rat))
     (heps : 0 ≤ eps)
     (hno : ∀ x ∈ sp, ∀ hs ∈ hss, ¬ x.2 * (sd * (hs.mulVec x.1).get 0) ≤ eps) :
@@ -534,6 +536,158 @@ theorem ensemble_step_partial (sd eps : Rat) (hss : List (Mat Rat n n)) (sp : Li
     rw [mul_assoc, mul_div_cancel₀ _ hne]
 
 end ens
+
+/-! ### measurement process after measurement process, truncation, back-action mode 1 (repaired code) -/
+section a
+variable {n : Nat} [NeZero n]
+
+omit [NeZero n] in
+/-- helper: `zip` of two maps over the same list -/
+theorem zip_map_same {α β γ : Type} (g : α → β) (h : α → γ) (l : List α) :
+    (l.map g).zip (l.map h) = l.map fun a => (g a, h a) := by
+  induction l with
+  | nil => rfl
+  | cons a t ih => simp [ih]
+
+/-- C06 "each outcome's probability together with the **normalised** post-measurement state", all branches
+(truncation and renormalisation included): every post state produced by
+`_compose_qoperations_MProcess_State_for_States` is either the zero state (outcome truncated or of probability 0)
+or has unit trace — for every measurement process, state, weight and `eps_zero`. -/
+theorem post_states_normalised (sd eps : Rat) (hss : List (Mat Rat n n)) (rho : Vec Rat n) (w : Rat) :
+    ∀ st ∈ (forStates sd eps hss rho w).1, st = Vec.zero ∨ TraceOne sd st := by
+  intro st hst
+  simp only [forStates, List.map_map, zip_map_same, List.mem_map, Function.comp] at hst
+  obtain ⟨hs, _, rfl⟩ := hst
+  split
+  · left; simp
+  · by_cases h0 : sd * (hs.mulVec rho).get 0 = 0
+    · left; simp [h0]
+    · right; simp only [if_neg h0]; exact post_state_trace_one sd _ h0
+
+/-- C06 "any two bracketings … same statistics, same labelling" for two measurement processes and a (weighted)
+state, generic regime (no outcome of the composed process truncated): the unnormalised post states `p·ρ` of
+`(M₁∘M₂)∘ρ` are `M₁` applied to the outcome branches of `M₂` on `ρ`, earlier outcome slow — exactly what
+`M₁∘(M₂∘ρ)` computes step by step (`ensemble_step_partial`), and the reported shapes agree
+(`compose_mprocess_mprocess_shape`). -/
+theorem compose_assoc_mprocess_partial (sd eps : Rat) (h1 h2 : List (Mat Rat n n)) (rho : Vec Rat n) (w : Rat)
+    (heps : 0 ≤ eps)
+    (hno : ∀ hs ∈ mpMp h1 h2, ¬ w * (sd * (hs.mulVec rho).get 0) ≤ eps) :
+    weighted (forStates sd eps (mpMp h1 h2) rho w).2 (forStates sd eps (mpMp h1 h2) rho w).1
+      = applyInst h1 (applyInst h2 [Vec.smul w rho]) := by
+  have := ensemble_step_partial sd eps (mpMp h1 h2) [(rho, w)] heps (by
+    intro x hx hs hh
+    simp only [List.mem_singleton] at hx
+    subst hx
+    exact hno hs hh)
+  simp only [List.map_cons, List.map_nil, List.flatMap_cons, List.flatMap_nil, List.append_nil] at this
+  rw [this, applyInst_comp]
+
+/-- the dispatch composes two measurement processes as `mpMp` with shape `shape2 ++ shape1` — the shape
+`MProcess∘StateEnsemble` gives to `M₁∘(M₂∘ρ)` (ensemble shape first, then the later process) -/
+theorem compose_mprocess_mprocess_shape (c : Cfg) (s : Nat) (sh1 sh2 : List Nat) (e1 e2 : Rat)
+    (h1 h2 : List (Mat Rat n n)) :
+    compose c (.mprocess s sh1 e1 h1) (.mprocess s sh2 e2 h2) = mkMProcess s (sh2 ++ sh1) eps8 (mpMp h1 h2) := by
+  simp [compose]
+
+end a
+
+section mode1
+variable {K : Type} [CommRing K] [DecidableEq K] {d : Nat}
+
+/-- helper: with pairwise different eigenvalues the `spectral_decomp` dict loop of mode 1 is a plain map: one
+rank-one term `v vᵀ` per eigenvector, in order -/
+theorem mode1Loop_nodup (pairs : List (K × Vec K d)) (prev : Option K) (dct : List (K × List (Mat K d d)))
+    (hnd : (pairs.map (·.1)).Nodup)
+    (hdis : ∀ p ∈ pairs, ∀ e ∈ dct, e.1 ≠ p.1)
+    (hprev : ∀ p ∈ pairs, prev ≠ some p.1) :
+    mode1Loop pairs prev dct = dct ++ pairs.map fun p => (p.1, [outer p.2 p.2]) := by
+  induction pairs generalizing prev dct with
+  | nil => simp [mode1Loop]
+  | cons p t ih =>
+    obtain ⟨ev, row⟩ := p
+    simp only [List.map_cons, List.nodup_cons] at hnd
+    have hp : ¬ prev = some ev := hprev (ev, row) (by simp)
+    have hany : dct.any (fun e => decide (e.1 = ev)) = false := by
+      rw [List.any_eq_false]
+      intro e he
+      simpa using hdis (ev, row) (by simp) e he
+    simp only [mode1Loop, if_neg hp, dictSet, hany, Bool.false_eq_true, if_false]
+    rw [ih (some ev) (dct ++ [(ev, [outer row row])]) hnd.2]
+    · simp
+    · intro q hq e he
+      simp only [List.mem_append, List.mem_singleton] at he
+      rcases he with he | rfl
+      · exact hdis q (by simp [hq]) e he
+      · intro h
+        exact hnd.1 (by simp only [List.mem_map]; exact ⟨q, hq, h.symm⟩)
+    · intro q hq h
+      injection h with h
+      exact hnd.1 (by simp only [List.mem_map]; exact ⟨q, hq, h.symm⟩)
+
+/-- helper: a unit vector gives a projector, `(v vᵀ)ᵀ (v vᵀ) = v vᵀ` -/
+theorem outer_unit_idem (v : Vec K d) (hv : v.dot v = 1) :
+    (outer v v).transpose.mul (outer v v) = outer v v := by
+  apply Mat.ext'; intro i j
+  simp only [Mat.mul, Mat.transpose, outer, Mat.get_ofFn, fsum_eq_sum]
+  have : ∑ k, v.get k * v.get i * (v.get k * v.get j) = (∑ k, v.get k * v.get k) * (v.get i * v.get j) := by
+    rw [Finset.sum_mul]; apply Finset.sum_congr rfl; intro k _; ring
+  rw [this]
+  have hv' : ∑ k, v.get k * v.get k = 1 := by simpa [Vec.dot, fsum_eq_sum] using hv
+  rw [hv', one_mul]
+
+/-- helper: folding the one-term groups of unit vectors gives the spectral sum -/
+theorem fold_unit_groups (l : List (K × Vec K d)) (z : Mat K d d) (hunit : ∀ p ∈ l, p.2.dot p.2 = 1) :
+    (l.map fun p => (p.1, outer p.2 p.2)).foldl
+        (fun acc e => acc.add (Mat.smul e.1 (e.2.transpose.mul e.2))) z
+      = l.foldl (fun acc p => acc.add (Mat.smul p.1 (outer p.2 p.2))) z := by
+  induction l generalizing z with
+  | nil => rfl
+  | cons p t ih =>
+    simp only [List.map_cons, List.foldl_cons]
+    rw [outer_unit_idem p.2 (hunit p (by simp))]
+    exact ih _ (fun q hq => hunit q (by simp [hq]))
+
+/-- C06 "consistent with the measurement process generated from a POVM in back-action mode 1" (`to_povm ∘
+generate_mprocess(1)`), real symmetric element, pairwise different eigenvalues, normalised eigenvectors: the effect
+read back from the generated outcome map is the spectral sum `Σ_k λ_k u_k u_kᵀ` over the **columns** `u_k` of the
+`eigh` matrix (= `U diag(λ) Uᵀ`, the POVM element, by the `eigh` contract). Partial: stated in fold form over the
+columns; repeated eigenvalues (the dict grouping) and complex eigenvectors are not covered. -/
+theorem mode1_to_povm_partial (eigvals : List K) (U : Mat K d d)
+    (hnd : ((mode1Pairs eigvals U).map (·.1)).Nodup)
+    (hunit : ∀ p ∈ mode1Pairs eigvals U, p.2.dot p.2 = 1) :
+    mode1Effect eigvals U
+      = (mode1Pairs eigvals U).foldl (fun acc p => acc.add (Mat.smul p.1 (outer p.2 p.2))) Mat.zero := by
+  have h1 : mode1Groups eigvals U = (mode1Pairs eigvals U).map fun p => (p.1, outer p.2 p.2) := by
+    unfold mode1Groups
+    rw [mode1Loop_nodup _ none [] hnd (by simp) (by simp)]
+    simp
+  unfold mode1Effect
+  rw [h1]
+  exact fold_unit_groups _ _ hunit
+
+end mode1
+
+/-- the former D6 instance: the two bracketings of `M_a ∘ M_b ∘ ρ` (2 and 3 outcomes) now agree, labels included -/
+example :
+    ((Tree.node (.node (.leaf (.mprocess 0 [2] eps8 [#v[#v[1/3]], #v[#v[2/3]]] : QOp 1))
+                      (.leaf (.mprocess 0 [3] eps8 [#v[#v[1/2]], #v[#v[1/4]], #v[#v[1/4]]])))
+               (.leaf (.state 0 #v[1]))).eval { sd := 1, atol := 0 } |> distShape)
+      = ((Tree.node (.leaf (.mprocess 0 [2] eps8 [#v[#v[1/3]], #v[#v[2/3]]] : QOp 1))
+               (.node (.leaf (.mprocess 0 [3] eps8 [#v[#v[1/2]], #v[#v[1/4]], #v[#v[1/4]]]))
+                      (.leaf (.state 0 #v[1])))).eval { sd := 1, atol := 0 } |> distShape) := by
+  decide +kernel
+
+/-- the former D4 instance: `Π = |ψ⟩⟨ψ|`, `ψ = (3/5, 4/5)`, non-symmetric eigenvector matrix — mode 1 reproduces `Π` -/
+example : mode1Effect [0, 1] (#v[#v[4/5, 3/5], #v[-3/5, 4/5]] : Mat Rat 2 2)
+    = eighRecon #v[0, 1] #v[#v[4/5, 3/5], #v[-3/5, 4/5]] := by
+  decide +kernel
+
+/-- the former D13 instance: weight 2·10⁻⁸, conditional probabilities 1/10 and 9/10 — the surviving post state has
+unit trace -/
+example : ∀ st ∈ (forStates (1 : Rat) eps8 [(#v[#v[1/10]] : Mat Rat 1 1), #v[#v[9/10]]] #v[1] (2 / 100000000)).1,
+    st = Vec.zero ∨ TraceOne (1 : Rat) st :=
+  post_states_normalised _ _ _ _ _
+
 
 /-! ### non-vacuity: concrete instances of the hypotheses (1 qubit, normalised Pauli basis, `sd² = 2` replaced by
 the rational stand-in `sd = 1` on a 1-dimensional system where needed) -/
